@@ -289,55 +289,66 @@ def key_case(case):
         else:
             want[k] = du.subst(exp, files)
     text = du.par_text(tree_for(sec, sel, items))
-    with du.Spies() as sp:
-        sp.on(klass, label='K')
-        try:
-            pp = du.parser_for(d, text)
-            obj = generate(pp, sec)
-            err = None
-        except Exception as e:
-            obj, err = None, e
-    calls = sp.of('K')
     keys = '+'.join(sorted(setl)) or '-'
-    r.observe(tag, sorted(setl.items()), [sorted((k, du.short(v)) for k, v in c[2].items()
-                                                 if k not in du.OBJECT_SLOTS) for c in calls],
-              type(err).__name__)
     if setl and any(l != 'dflt' for l in setl.values()):
         r.nontrivial = True
-    if len(calls) == 0:
-        r.check(False, 'reaches-constructor', 'build-raised/%s/%s/%s' % (tag, keys, exc_sig(err)),
-                exc=repr(err), text=text)
-        return r
-    r.check(len(calls) == 1, 'one-construction', 'ctor-calls/%s' % tag, n=len(calls))
-    got = calls[0][2]
-    check_arrival(r, tag, klass, klass.__init__, got, want,
-                  dict((k, v[1]) for k, v in alpha.items()), setl)
-    if sec == 'Gas':
-        r.check(got.get('molecule_name') == 'H2O', 'value-arrives', 'value/%s/molecule_name' % tag,
-                got=got.get('molecule_name'))
-    if sec == 'Model':
-        chem = got.get('chemistry')
-        r.check(type(chem).__name__ == 'TaurexChemistry', 'model-wiring', 'wiring/%s/chemistry' % tag,
-                got=type(chem).__name__)
-    if err is not None:
-        if klass.__name__ in du.BODY_MAY_FAIL:
-            r.count('ctor-body-needs-external-data')
-        else:
-            r.check(False, 'constructor-accepts', 'ctor-raised/%s/%s/%s' % (tag, keys, exc_sig(err)),
+    holder = {}
+
+    def build_round(again):
+        """One generate_*() on the parser; again=True: a second generation from the same, already used parser (a
+        section is read as often as the caller asks: the file, not the history of the parser, decides)."""
+        pre = 'again/' if again else ''
+        with du.Spies() as sp:
+            sp.on(klass, label='K')
+            try:
+                if not again:
+                    holder['pp'] = du.parser_for(d, text)
+                obj = generate(holder['pp'], sec)
+                err = None
+            except Exception as e:
+                obj, err = None, e
+        calls = sp.of('K')
+        r.observe(pre + tag, sorted(setl.items()), [sorted((k, du.short(v)) for k, v in c[2].items()
+                                                           if k not in du.OBJECT_SLOTS) for c in calls],
+                  type(err).__name__)
+        if len(calls) == 0:
+            r.check(False, 'reaches-constructor', '%sbuild-raised/%s/%s/%s' % (pre, tag, keys, exc_sig(err)),
                     exc=repr(err), text=text)
-        return r
-    objs = built_objects(sec, obj)
-    r.check(len(objs) == 1 and type(objs[0]) is klass and calls[0][1] is objs[0],
-            'instance-of-resolved-class', 'wrong-instance/%s' % tag,
-            got=[type(o).__name__ for o in objs])
-    for k, dflt, kt in PARSER_KEYS.get(sec, []):
-        val = obj[1] if isinstance(obj, tuple) and len(obj) > 1 else None
-        if k in parser_want:
-            r.check(du.same_value(val, parser_want[k]), 'value-arrives',
-                    'value/%s/%s/%s' % (tag, k, setl[k]), got=du.short(val), want=parser_want[k])
-        else:
-            r.check(du.is_default(val, dflt), 'default-otherwise', 'default/%s/%s' % (tag, k),
-                    got=du.short(val), default=dflt)
+            return False
+        r.check(len(calls) == 1, 'one-construction', '%sctor-calls/%s' % (pre, tag), n=len(calls))
+        got = calls[0][2]
+        check_arrival(r, pre + tag, klass, klass.__init__, got, want,
+                      dict((k, v[1]) for k, v in alpha.items()), setl)
+        if sec == 'Gas':
+            r.check(got.get('molecule_name') == 'H2O', 'value-arrives', 'value/%s%s/molecule_name' % (pre, tag),
+                    got=got.get('molecule_name'))
+        if sec == 'Model':
+            chem = got.get('chemistry')
+            r.check(type(chem).__name__ == 'TaurexChemistry', 'model-wiring', 'wiring/%s%s/chemistry' % (pre, tag),
+                    got=type(chem).__name__)
+        if err is not None:
+            if klass.__name__ in du.BODY_MAY_FAIL:
+                r.count('ctor-body-needs-external-data')
+            else:
+                r.check(False, 'constructor-accepts', '%sctor-raised/%s/%s/%s' % (pre, tag, keys, exc_sig(err)),
+                        exc=repr(err), text=text)
+            return False
+        objs = built_objects(sec, obj)
+        r.check(len(objs) == 1 and type(objs[0]) is klass and calls[0][1] is objs[0],
+                'instance-of-resolved-class', '%swrong-instance/%s' % (pre, tag),
+                got=[type(o).__name__ for o in objs])
+        for k, dflt, kt in PARSER_KEYS.get(sec, []):
+            val = obj[1] if isinstance(obj, tuple) and len(obj) > 1 else None
+            if k in parser_want:
+                r.check(du.same_value(val, parser_want[k]), 'value-arrives',
+                        'value/%s%s/%s/%s' % (pre, tag, k, setl[k]), got=du.short(val), want=parser_want[k])
+            else:
+                r.check(du.is_default(val, dflt), 'default-otherwise', 'default/%s%s/%s' % (pre, tag, k),
+                        got=du.short(val), default=dflt)
+        return True
+
+    if build_round(False):
+        build_round(True)
     return r
 
 
@@ -1037,7 +1048,10 @@ def enumerate_aux(ctx):
 # ----------------------------------------------------------------------------------------------
 CLI_DIMS = {
     'model': ['transmission', 'emission', 'directimage'],
-    'binning': ['none', 'native', 'manual_wn', 'manual_wl_acc', 'manual_logwn', 'manual_wn+snr'],
+    'binning': ['none', 'native', 'manual_wn', 'manual_wl_acc', 'manual_logwn', 'manual_wn+snr', 'observed'],
+    # an observed spectrum next to the model: without a [Binning] section (and with bin_type = observed) the output is
+    # binned to the observation, every explicit [Binning] choice wins over it
+    'obs': ['none', 'file3', 'file4'],
     'temp': ['npoint', 'isothermal', 'guillot'],
     'chem': ['one', 'two', 'ratio_list'],
     'contribs': ['abs', 'abs+ray', 'abs+ray+clouds', 'abs+lee', 'abs+flat', 'none+ray'],
@@ -1065,6 +1079,23 @@ def cli_values(case):
     v['pcloud'] = float('%.4g' % 10 ** g.uniform(2.5, 4))
     v['snr'] = float('%.3g' % g.uniform(5, 30))
     return v
+
+
+OBS_WL = [3.0, 4.0, 5.5, 7.0, 9.0]
+OBS_WLW = [0.4, 0.5, 0.8, 0.9, 1.2]
+
+
+def cli_obs_rows(case):
+    g = fx.rng('c15-obs')
+    rows = np.column_stack([OBS_WL, g.uniform(0.01, 0.02, 5), g.uniform(1e-4, 2e-4, 5), OBS_WLW])
+    return rows if case['obs'] == 'file4' else rows[:, :3]
+
+
+def cli_obs_file(case, xdir):
+    # next to the opacity directory, not inside it (the cache would try to read it as an opacity)
+    path = os.path.join(os.path.dirname(xdir), 'c15_observation_%s.dat' % case['obs'])
+    np.savetxt(path, cli_obs_rows(case)[::-1])
+    return path
 
 
 def cli_par(case, v, xdir):
@@ -1111,8 +1142,12 @@ def cli_par(case, v, xdir):
     tree = [('Global', glob), ('Chemistry', chem), ('Temperature', temp), ('Pressure', pres),
             ('Planet', planet), ('Star', star), ('Model', model)]
     b = case['binning']
+    if case.get('obs', 'none') != 'none':
+        tree.append(('Observation', [('observed_spectrum', cli_obs_file(case, xdir))]))
     if b == 'native':
         tree.append(('Binning', [('bin_type', 'native')]))
+    elif b == 'observed':
+        tree.append(('Binning', [('bin_type', 'observed')]))
     elif b.startswith('manual_wn'):
         tree.append(('Binning', [('bin_type', 'manual'), ('wavenumber_grid', '1000, 3800, 6')]))
     elif b == 'manual_wl_acc':
@@ -1182,8 +1217,14 @@ def cli_library(case, v, xdir):
     wn, flux = np.array(res[0], float), np.array(res[1], float)
     b = case['binning']
     err = None
-    if b in ('none', 'native'):
+    obs = case.get('obs', 'none')
+    if b == 'native' or (b == 'none' and obs == 'none'):
         owl, ospec = 10000.0 / wn, flux
+    elif b in ('none', 'observed'):
+        from taurex.data.spectrum.observed import ObservedSpectrum
+        o = ObservedSpectrum(cli_obs_file(case, xdir))
+        binned = o.create_binner().bindown(wn, flux)
+        owl, ospec = 10000.0 / np.array(o.wavenumberGrid, float), np.array(binned[1], float)
     else:
         if b.startswith('manual_wn'):
             grid, cls = np.linspace(1000.0, 3800.0, 6), SimpleBinner
@@ -1213,7 +1254,9 @@ def cli_case(case):
     text = cli_par(case, v, xdir)
     par = du.write_par(odir, text)
     sfile, hfile = os.path.join(odir, 'out.dat'), os.path.join(odir, 'out.h5')
-    tag = '%s/%s' % (case['model'], case['binning'])
+    tag = '%s/%s' % (case['model'], case['binning'] + ('' if case.get('obs', 'none') == 'none' else '+obs'))
+    if case['binning'] == 'observed' and case.get('obs', 'none') == 'none':
+        return r        # the program stops with a message: nothing to compare
     # library first, then the program, each from reset caches
     owl, ospec, oerr, nwn, nflux = cli_library(case, v, xdir)
     fx.reset_caches()
@@ -1248,13 +1291,21 @@ def cli_case(case):
         sp = f['Output']['Spectra']
         r.eq(sp['native_wngrid'][...], nwn, 'hdf5-native', 'hdf5-native-grid/' + tag, rtol=1e-12)
         r.eq(sp['native_spectrum'][...], nflux, 'hdf5-native', 'hdf5-native/' + tag, rtol=1e-12)
-        if case['binning'] not in ('none', 'native'):
+        if not (case['binning'] == 'native' or (case['binning'] == 'none' and case.get('obs', 'none') == 'none')):
             r.eq(sp['binned_spectrum'][...], ospec, 'hdf5-binned', 'hdf5-binned/' + tag, rtol=1e-12)
             r.eq(10000.0 / sp['binned_wngrid'][...], owl, 'hdf5-binned', 'hdf5-binned-grid/' + tag, rtol=1e-12)
         if case['binning'].endswith('+snr'):
             r.eq(sp['instrument_spectrum'][...], ospec, 'hdf5-instrument', 'hdf5-instrument/' + tag, rtol=1e-12)
             r.eq(sp['instrument_noise'][...], oerr, 'hdf5-instrument', 'hdf5-instrument-noise/' + tag, rtol=1e-12)
         r.check('ModelParameters' in f, 'hdf5-model', 'hdf5-no-model/' + tag)
+        if case.get('obs', 'none') != 'none':
+            rows = cli_obs_rows(case)
+            if r.check('Observed' in f, 'hdf5-observed', 'hdf5-no-observed/' + tag):
+                og = f['Observed']
+                order = np.argsort(10000.0 / rows[:, 0])
+                r.eq(og['wlgrid'][...], rows[order, 0], 'hdf5-observed', 'hdf5-observed-grid/' + tag, rtol=1e-12)
+                r.eq(og['spectrum'][...], rows[order, 1], 'hdf5-observed', 'hdf5-observed-spectrum/' + tag, rtol=1e-12)
+                r.eq(og['errorbars'][...], rows[order, 2], 'hdf5-observed', 'hdf5-observed-error/' + tag, rtol=1e-12)
     return r
 
 
@@ -1263,8 +1314,10 @@ def enumerate_cli(ctx):
     if full:
         dims = dict(CLI_DIMS)
         cases = core.product_cases(dims, core=['model', 'binning', 'temp', 'contribs'], d=2)
+        cases += [c for c in core.product_cases(dims, core=['model', 'binning', 'obs'], d=1) if c not in cases]
     else:
         cases = core.product_cases(CLI_DIMS, core=['model', 'binning'], d=1)
+        cases += [c for c in core.product_cases(CLI_DIMS, core=['binning', 'obs'], d=0) if c not in cases]
     ctx.run_cases('cli_case', cases, phase='cli', chunk=2)
     ctx.bounds['cli'] = 'model x binning x temp x contribs full + 2 deviations' if full else \
         'model x binning full + 1 deviation'
